@@ -1,2 +1,517 @@
-// Package c14: (not built yet)
+// Package c14: contact queries round-trip through text and cannot be injected into.
+//
+// (i)   every token sequence up to a length over a 25-token alphabet, in four parse configurations:
+//
+//	whenever the real parser accepts q, Parse(Parse(q).String()) must be accepted and be
+//	structurally identical to Parse(q);
+//
+// (ii)  queries built with NewCondition/NewBoolCombination over all tree shapes of depth <= 2 with
+//
+//	every string up to a length over an adversarial alphabet as a condition value at every
+//	position: Parse(Stringify(n)) must be accepted and equal n (up to associativity flattening
+//	and unwrapping of single-child combinations for trees not already in that form);
+//
+// (iii) contact-query templates evaluated by the real template evaluator with the engine's
+//
+//	ContactQueryEscaping for all such values: the parsed result must have exactly the template's
+//	structure with the substituted values as the literals;
+//
+// (iv)  the same through a real session running start_session and send_broadcast actions.
 package c14
+
+import (
+	"encoding/json"
+	"fmt"
+	"os"
+	"strings"
+	"time"
+
+	"github.com/nyaruka/gocommon/dates"
+	"verif/mc"
+)
+
+type group struct {
+	name string
+	gen  func(c *mc.Ctx, emit func(*Case))
+}
+
+// ---- value alphabets ----------------------------------------------------------------------------
+
+var sigma = []string{`"`, `\`, ` `, `a`, `O`, `R`, `(`, `)`, `=`, `1`, `é`}
+var sigmaPlus = append(append([]string{}, sigma...), "\n", "😀", `'`, `~`)
+
+// stringsUpTo enumerates every string of at most n symbols over the alphabet whose first symbol
+// index is congruent to the given residue (for sharding), or all when mod <= 1.
+func stringsUpTo(alpha []string, n int, visit func(s string)) {
+	var rec func(prefix string, depth int)
+	rec = func(prefix string, depth int) {
+		visit(prefix)
+		if depth == n {
+			return
+		}
+		for _, a := range alpha {
+			rec(prefix+a, depth+1)
+		}
+	}
+	rec("", 0)
+}
+
+func allStrings(alpha []string, n int) []string {
+	var out []string
+	stringsUpTo(alpha, n, func(s string) { out = append(out, s) })
+	return out
+}
+
+// ---- part (i) -----------------------------------------------------------------------------------
+
+type tokenParams struct {
+	maxLen   int // sequences up to this length
+	unpruned int // all sequences up to this length are visited, pruned or not (validates the pruning)
+}
+
+func tokenGroups(tp tokenParams) []group {
+	var gs []group
+	n := len(tokenAlphabet)
+	// one group per first two tokens; the length-1 sequences and the empty one ride with group (i,0)
+	for i := 0; i < n; i++ {
+		for j := 0; j < n; j++ {
+			i, j := i, j
+			gs = append(gs, group{fmt.Sprintf("text/%s %s", tokenAlphabet[i], tokenAlphabet[j]), func(c *mc.Ctx, emit func(*Case)) {
+				e := &tokenEnum{c: c, emit: emit, tp: tp}
+				first := tokenAlphabet[i]
+				deadFirst := deadPrefix(first)
+				if j == 0 {
+					e.visit(first, []int{i}, false)
+				}
+				if tp.maxLen < 2 || (deadFirst && 1 >= tp.unpruned) {
+					if deadFirst {
+						c.Inc("text:prefixes_pruned")
+					}
+					return
+				}
+				e.dfs(first+" "+tokenAlphabet[j], []int{i, j}, deadFirst)
+			}})
+		}
+	}
+	return gs
+}
+
+type tokenEnum struct {
+	c    *mc.Ctx
+	emit func(*Case)
+	tp   tokenParams
+}
+
+// visit evaluates one token sequence: ParseQuery under the first configuration always; under the
+// other three unless the first one failed with a syntax error on a text that cannot be a phone
+// number (syntax does not depend on the configuration).
+func (e *tokenEnum) visit(text string, seq []int, dead bool) {
+	e.c.Inc("text:sequences")
+	for ci, cfg := range allCfgs {
+		cs := &Case{Kind: "text", Cfg: cfg, Query: text}
+		o := &obs{}
+		var ps []Problem
+		if pnc := mc.Guard(func() { ps = check(cs, o) }); pnc != "" {
+			ps = append(ps, Problem{Key: "harness:panic:" + mc.PanicSite(pnc), What: pnc})
+		}
+		if o.accepted {
+			for _, t := range seq {
+				o.fact("tok:" + tokenAlphabet[t])
+			}
+			o.fact(fmt.Sprintf("text:accepted-length:%d", len(seq)))
+			if dead {
+				ps = append(ps, Problem{Key: "harness:pruning-unsound", What: fmt.Sprintf("%q (%s) is accepted although a proper prefix was classified as dead", text, cfg)})
+			}
+		}
+		record(e.c, cs, o, ps)
+		if ci == 0 && o.reject == "syntax" && !phoneLike(text) {
+			break
+		}
+	}
+}
+
+func (e *tokenEnum) dfs(text string, seq []int, deadAncestor bool) {
+	if e.c.Expired() {
+		e.c.Cap("time budget reached inside the token-sequence enumeration")
+		return
+	}
+	e.visit(text, seq, deadAncestor)
+	if len(seq) >= e.tp.maxLen {
+		return
+	}
+	dead := deadAncestor || deadPrefix(text)
+	if dead && len(seq) >= e.tp.unpruned {
+		e.c.Inc("text:prefixes_pruned")
+		return
+	}
+	for t, tok := range tokenAlphabet {
+		e.dfs(text+" "+tok, append(seq[:len(seq):len(seq)], t), dead)
+	}
+}
+
+// ---- part (ii) ----------------------------------------------------------------------------------
+
+// leafKinds: property/operator given to the i-th condition of a constructed tree (all accept any
+// text value under all four configurations).
+var leafKinds = [][3]string{
+	{"attr", "name", "="}, {"field", "gender", "!="}, {"urn", "tel", "="}, {"attr", "name", "!="}, {"field", "gender", "="}, {"urn", "twitter", "!="},
+	{"attr", "name", "="}, {"field", "gender", "!="}, {"urn", "tel", "="},
+}
+
+// shapes enumerates the boolean structures of depth <= 2: a condition; or a combination of 1..3
+// children, each a condition or a combination (either operator) of 1..2 conditions.
+func shapes() []*Node {
+	kidOptions := []*Node{{}}
+	for _, op := range []string{"and", "or"} {
+		kidOptions = append(kidOptions, comb(op, &Node{}), comb(op, &Node{}, &Node{}))
+	}
+	out := []*Node{{}}
+	for _, op := range []string{"and", "or"} {
+		for _, a := range kidOptions {
+			out = append(out, comb(op, a))
+			for _, b := range kidOptions {
+				out = append(out, comb(op, a, b))
+				for _, d := range kidOptions {
+					out = append(out, comb(op, a, b, d))
+				}
+			}
+		}
+	}
+	return out
+}
+
+// selectedShapes: the structures on which the longest values are tried.
+func selectedShapes() []*Node {
+	c := func() *Node { return &Node{} }
+	return []*Node{
+		c(),
+		comb("and", c(), c()),
+		comb("or", c(), c(), c()),
+		comb("or", comb("and", c(), c()), c()),
+		comb("and", c(), comb("or", c(), c())),
+		comb("or", comb("and", c(), c()), comb("and", c(), c())),
+		comb("and", comb("and", c(), c()), c()), // flattened by the parser
+		comb("or", comb("or", c())),             // single children
+	}
+}
+
+// instantiate copies a shape, giving the i-th condition its property/operator and value.
+func instantiate(shape *Node, vals func(i int) string) *Node {
+	i := 0
+	var rec func(n *Node) *Node
+	rec = func(n *Node) *Node {
+		if n.Op == "" {
+			k := leafKinds[i%len(leafKinds)]
+			out := cond(k[0], k[1], k[2], vals(i))
+			i++
+			return out
+		}
+		out := &Node{Op: n.Op}
+		for _, kid := range n.Kids {
+			out.Kids = append(out.Kids, rec(kid))
+		}
+		return out
+	}
+	return rec(shape)
+}
+
+func leafCount(n *Node) int { return len(n.conds(nil)) }
+
+var contextValues = []string{"b", "7"}
+
+// constructedGroups: values x shapes x focus position x context value x configuration.
+func constructedGroups(name string, shapeList []*Node, alpha []string, maxLen int, cfgs []Cfg) []group {
+	var gs []group
+	for si, sh := range shapeList {
+		si, sh := si, sh
+		for ai := range alpha {
+			ai := ai
+			gs = append(gs, group{fmt.Sprintf("%s/shape%d/%s", name, si, sh.shape()), func(c *mc.Ctx, emit func(*Case)) {
+				visit := func(v string) {
+					for f := 0; f < leafCount(sh); f++ {
+						for _, ctxv := range contextValues {
+							tree := instantiate(sh, func(i int) string {
+								if i == f {
+									return v
+								}
+								return ctxv
+							})
+							for _, cfg := range cfgs {
+								emit(&Case{Kind: "constructed", Cfg: cfg, Tree: tree, Focus: f})
+							}
+						}
+					}
+				}
+				// this group owns the values starting with alpha[ai]; the empty value rides with ai == 0
+				if ai == 0 {
+					visit("")
+				}
+				stringsUpTo(alpha, maxLen-1, func(s string) { visit(alpha[ai] + s) })
+			}})
+		}
+	}
+	return gs
+}
+
+// pairGroups: two adversarial values in one constructed query.
+func constructedPairGroups(alpha []string, maxLen int) []group {
+	c := func() *Node { return &Node{} }
+	type pairShape struct {
+		sh   *Node
+		a, b int
+	}
+	pss := []pairShape{
+		{comb("and", c(), c()), 0, 1},
+		{comb("or", comb("and", c(), c()), c()), 0, 2},
+		{comb("or", comb("and", c(), c()), c()), 1, 2},
+		{comb("or", c(), c(), c()), 0, 2},
+		{comb("and", c(), comb("or", c(), c())), 1, 2},
+	}
+	vals := allStrings(alpha, maxLen)
+	var gs []group
+	for pi, ps := range pss {
+		ps := ps
+		for vi, v := range vals {
+			v := v
+			gs = append(gs, group{fmt.Sprintf("constructed-pairs/%d/%d", pi, vi), func(c *mc.Ctx, emit func(*Case)) {
+				for _, w := range vals {
+					tree := instantiate(ps.sh, func(i int) string {
+						switch i {
+						case ps.a:
+							return v
+						case ps.b:
+							return w
+						}
+						return "b"
+					})
+					for _, cfg := range allCfgs {
+						emit(&Case{Kind: "constructed", Cfg: cfg, Tree: tree, Focus: -1})
+					}
+				}
+			}})
+		}
+	}
+	return gs
+}
+
+// ---- part (iii) ---------------------------------------------------------------------------------
+
+func templateGroups(alpha []string, maxLen int, cfgs []Cfg) []group {
+	var gs []group
+	for ti, tpl := range templates {
+		ti, tpl := ti, tpl
+		for ai := range alpha {
+			ai := ai
+			gs = append(gs, group{fmt.Sprintf("template/%d/%s", ti, alpha[ai]), func(c *mc.Ctx, emit func(*Case)) {
+				visit := func(v string) {
+					for _, cfg := range cfgs {
+						if !tpl.two {
+							emit(&Case{Kind: "template", Cfg: cfg, Template: ti, V: v})
+							continue
+						}
+						for _, ctxv := range contextValues {
+							emit(&Case{Kind: "template", Cfg: cfg, Template: ti, V: v, W: ctxv})
+							emit(&Case{Kind: "template", Cfg: cfg, Template: ti, V: ctxv, W: v})
+						}
+					}
+				}
+				if ai == 0 {
+					visit("")
+				}
+				stringsUpTo(alpha, maxLen-1, func(s string) { visit(alpha[ai] + s) })
+			}})
+		}
+	}
+	return gs
+}
+
+func templatePairGroups(kind string, alpha []string, maxLen int, cfgs []Cfg) []group {
+	vals := allStrings(alpha, maxLen)
+	var gs []group
+	for vi, v := range vals {
+		v := v
+		gs = append(gs, group{fmt.Sprintf("%s-pairs/%d", kind, vi), func(c *mc.Ctx, emit func(*Case)) {
+			for _, w := range vals {
+				for ti, tpl := range templates {
+					if !tpl.two && w != "" {
+						continue
+					}
+					for _, cfg := range cfgs {
+						emit(&Case{Kind: kind, Cfg: cfg, Template: ti, V: v, W: w})
+					}
+				}
+			}
+		}})
+	}
+	return gs
+}
+
+// ---- tiers ---------------------------------------------------------------------------------------
+
+func allGroups(tier string) []group {
+	var gs []group
+	twoCfgs := []Cfg{{false, false}, {true, true}}
+	if tier == "thorough" {
+		gs = append(gs, tokenGroups(tokenParams{maxLen: 6, unpruned: 4})...)
+		gs = append(gs, constructedGroups("constructed-long", selectedShapes(), sigma, 5, twoCfgs)...)
+		gs = append(gs, constructedGroups("constructed-all-shapes", shapes(), sigmaPlus, 3, allCfgs)...)
+		gs = append(gs, constructedPairGroups(sigmaPlus, 2)...)
+		gs = append(gs, constructedPairGroups(sigma, 3)...)
+		gs = append(gs, templateGroups(sigma, 5, twoCfgs)...)
+		gs = append(gs, templatePairGroups("template", sigmaPlus, 2, allCfgs)...)
+		gs = append(gs, templatePairGroups("template", sigma, 3, twoCfgs)...)
+		gs = append(gs, templatePairGroups("engine", sigmaPlus, 2, twoCfgs)...)
+		return gs
+	}
+	gs = append(gs, tokenGroups(tokenParams{maxLen: 5, unpruned: 3})...)
+	gs = append(gs, constructedGroups("constructed-long", selectedShapes(), sigma, 4, twoCfgs)...)
+	gs = append(gs, constructedGroups("constructed-all-shapes", shapes(), sigmaPlus, 2, allCfgs)...)
+	gs = append(gs, constructedPairGroups(sigmaPlus, 2)...)
+	gs = append(gs, templateGroups(sigma, 4, twoCfgs)...)
+	gs = append(gs, templatePairGroups("template", sigmaPlus, 2, allCfgs)...)
+	gs = append(gs, templatePairGroups("engine", sigmaPlus, 1, twoCfgs)...)
+	return gs
+}
+
+// ---- run ----------------------------------------------------------------------------------------
+
+func record(c *mc.Ctx, cs *Case, o *obs, ps []Problem) {
+	c.Add("evaluations", int64(o.parses))
+	c.Inc("cases:" + cs.Kind)
+	if o.accepted {
+		c.Inc("distinct_nontrivial")
+		c.Inc("accepted:" + cs.Kind)
+	} else if o.reject != "" {
+		c.Inc("rejected:" + cs.Kind)
+		c.Outcome("reject:" + cs.Kind + ":" + o.reject)
+	}
+	for _, f := range o.facts {
+		c.Fact(f)
+	}
+	if o.outcome != "" {
+		c.Outcome(o.outcome)
+	}
+	for _, p := range ps {
+		c.Violation(p.Key, p.What, cs)
+	}
+}
+
+func run(c *mc.Ctx) {
+	dates.SetNowFunc(dates.NewFixedNow(time.Date(2025, 5, 4, 12, 30, 45, 0, time.UTC)))
+	gs := allGroups(c.Tier)
+	if f := os.Getenv("C14_DEV_FILTER"); f != "" {
+		var keep []group
+		for _, g := range gs {
+			if strings.HasPrefix(g.name, f) {
+				keep = append(keep, g)
+			}
+		}
+		gs = keep
+	}
+	off := 0
+	if len(gs) > 0 {
+		off = int(uint64(c.Seed) % uint64(len(gs)))
+	}
+	done := 0
+	for k := range gs {
+		i := (k + off) % len(gs)
+		if !c.Mine(i) {
+			continue
+		}
+		if c.Expired() {
+			c.Cap(fmt.Sprintf("time budget reached after %d of this worker's groups; groups before the cap were enumerated completely", done))
+			break
+		}
+		nth := 0
+		gs[i].gen(c, func(cs *Case) {
+			if cs.Kind == "text" {
+				return // text cases are evaluated and recorded by the enumerator itself
+			}
+			o := &obs{}
+			var ps []Problem
+			if pnc := mc.Guard(func() { ps = check(cs, o) }); pnc != "" {
+				ps = append(ps, Problem{Key: "harness:panic:" + mc.PanicSite(pnc), What: pnc})
+			}
+			record(c, cs, o, ps)
+			nth++
+			if nth == 500 && c.WantSample() && i%97 == 5 {
+				c.Sample(cs)
+			}
+		})
+		done++
+		c.Inc("groups")
+	}
+}
+
+func replayFn(c *mc.Ctx, raw json.RawMessage) (string, bool) {
+	dates.SetNowFunc(dates.NewFixedNow(time.Date(2025, 5, 4, 12, 30, 45, 0, time.UTC)))
+	var cs Case
+	if err := json.Unmarshal(raw, &cs); err != nil {
+		return "bad replay: " + err.Error(), false
+	}
+	o := &obs{}
+	var ps []Problem
+	if pnc := mc.Guard(func() { ps = check(&cs, o) }); pnc != "" {
+		ps = append(ps, Problem{Key: "harness:panic:" + mc.PanicSite(pnc), What: pnc})
+	}
+	out := fmt.Sprintf("case: %s\naccepted=%t reject=%q parses=%d\n", mc.JSON(cs), o.accepted, o.reject, o.parses)
+	for _, p := range ps {
+		out += fmt.Sprintf("PROBLEM %s\n  %s\n", p.Key, strings.ReplaceAll(p.What, "\n", "\n  "))
+	}
+	return out, len(ps) > 0
+}
+
+func guards(r *mc.Result, tier string) []string {
+	var f []string
+	need := func(fact string) {
+		if r.Facts[fact] == 0 {
+			f = append(f, "never observed: "+fact)
+		}
+	}
+	for _, t := range tokenAlphabet {
+		need("tok:" + t)
+	}
+	maxLen := 5
+	if tier == "thorough" {
+		maxLen = 6
+	}
+	for l := 1; l <= maxLen; l++ {
+		need(fmt.Sprintf("text:accepted-length:%d", l))
+	}
+	for _, v := range []string{"value:ends-with-backslash", "value:contains-quote", "value:contains-backslash", "value:empty", "value:written-bare",
+		"constructed:already-normal", "constructed:needs-flattening", "engine:start_session", "engine:send_broadcast"} {
+		need(v)
+	}
+	for _, k := range []string{"text", "constructed", "template", "engine"} {
+		if r.Counters["accepted:"+k] == 0 {
+			f = append(f, "no accepted case of kind "+k)
+		}
+	}
+	if r.Counters["rejected:text"] == 0 {
+		f = append(f, "the parser never rejected a token sequence")
+	}
+	if r.Counters["text:prefixes_pruned"] == 0 {
+		f = append(f, "prefix pruning never applied")
+	}
+	return f
+}
+
+func init() {
+	mc.Register(&mc.Check{
+		ID:    "C14",
+		Level: "exploration",
+		Rule: "(i) every sequence of <= 5 (quick) / 6 (thorough) tokens over a 25-token alphabet (5 properties, 7 comparators + has/is, AND, or, parentheses, 7 bare/quoted literals incl. one with an escaped quote and trailing escaped backslash), joined by spaces, pruned only below prefixes the real generated parser proves dead (first syntax error at a non-EOF token in the lexically stable part; validated by visiting all sequences <= 3/4 unpruned), under 2 redaction policies x {no resolver, mock resolver}: each accepted query is formatted and re-parsed and the two trees compared node by node; " +
+			"(ii) NewCondition/NewBoolCombination trees: all 311 shapes of depth <= 2 (root arity 1-3, children: condition or 1-2-condition combination) x every string of <= 2/3 symbols over a 15-symbol alphabet at every condition position x 2 context values x 4 configurations, 8 selected shapes x every string of <= 4/5 symbols over the 11-symbol alphabet {\" \\ space a O R ( ) = 1 e-acute} x 2 configurations, and all pairs of strings <= 2 (thorough also <= 3) at two positions of 5 shapes: Parse(Stringify(n)) must equal n's reference normal form (n itself when already flat); " +
+			"(iii) 6 templates evaluated by the real excellent template evaluator with flows.ContactQueryEscaping for the same values at each position and all pairs <= 2/3: the parsed text must be exactly the template's tree with the values as literals; (iv) the same templates as contact_query of real start_session and send_broadcast actions in a real session for all value pairs <= 1/2. " +
+			"distinct_nontrivial counts accepted (sequence, configuration) pairs, constructed queries and substituted templates (each a distinct tuple); evaluations counts ParseQuery calls.",
+		Assumptions: []string{
+			"bounded token alphabet, sequence length, value alphabet and value length as stated; values are valid UTF-8",
+			"a 'valid query built programmatically' has property/operator combinations that admit any text value (text attribute, text field, URN scheme with = / !=) and no empty combination; single-child combinations and same-operator nesting are compared after flattening, since no parser output can contain them",
+			"prefix pruning relies on the generated parser reporting its first syntax error at the earliest offending token; checked by brute force up to the unpruned length",
+		},
+		Run:    run,
+		Replay: replayFn,
+		Guards: guards,
+		Budget: map[string]time.Duration{"quick": 4 * time.Minute, "thorough": 18 * time.Minute},
+	})
+}
